@@ -569,4 +569,38 @@ Definition other_of (s : st) (n : node) : onode := mkOnode (idf (nk n)) (ndet n)
 Definition others_of (s : st) : list onode :=
   map (other_of s) (filter (fun n => match fst (nk n) with KRoot | KTree => true | _ => false end) (nodes s)).
 
+(* decidable form of the coupling (proofs/SchedGraphCpl.v: coupled), evaluated on real snapshots *)
+Fixpoint list_eqb' {A B} (e : A -> B -> bool) (l1 : list A) (l2 : list B) : bool :=
+  match l1, l2 with
+  | [], [] => true
+  | x :: r1, y :: r2 => e x y && list_eqb' e r1 r2
+  | _, _ => false
+  end.
+Definition oN_eqb (a b : option N) : bool :=
+  match a, b with Some x, Some y => x =? y | None, None => true | _, _ => false end.
+Definition file_eqb' (a b : Sched.file) : bool :=
+  (f_key a =? f_key b) && str_eqb (f_label a) (f_label b) && (f_state a =? f_state b)
+  && Bool.eqb (f_detached a) (f_detached b) && oN_eqb (f_creator a) (f_creator b) && Bool.eqb (f_hash a) (f_hash b).
+Definition onode_eqb' (a b : onode) : bool :=
+  (o_key a =? o_key b) && Bool.eqb (o_detached a) (o_detached b) && oN_eqb (o_creator a) (o_creator b).
+Definition dep_eqb' (a b : Sched.dep) : bool :=
+  (d_src a =? d_src b) && (d_snk a =? d_snk b) && Bool.eqb (d_dyn a) (d_dyn b).
+Definition coupled_b (s : st) (g : graph) : bool :=
+  list_eqb' (fun r x => step_agrees s r x) (steps s) (g_steps g)
+  && list_eqb' file_eqb' (g_files g) (map (file_of s) (files s))
+  && list_eqb' onode_eqb' (g_others g) (others_of s)
+  && list_eqb' dep_eqb' (g_deps g) (map dep_of (deps s)).
+
+(* the snapshot of a fresh database: the root node only *)
+Definition init_graph (targets : list str) (tdirs : list (str * str)) (avail : list (str * N)) (thr : N) : graph :=
+  mkGraph [] [] [mkOnode (idf root_key) false None] [] targets tdirs avail thr.
+
 End SG.
+
+(* no static-tree nodes and no cycle of creator links (decidable form of proofs/SchedGraphSim.v: NTC) *)
+Definition ntc_b (s : st) : bool :=
+  forallb (fun n => negb (kind_eqb (fst (nk n)) KTree)
+                    && match ncre n with
+                       | Some c => key_eqb c (nk n) || negb (mem_key c (rec_products (nk n) s))
+                       | None => true
+                       end) (nodes s).
